@@ -115,6 +115,7 @@ class Evaluator:
         self.effects = []
         self._yields = []
         self.unknown_attrs = set()
+        self.stubs = {}              # name of a package function -> value it returns (the callee is not interpreted)
         self.symbolic = set()        # names of package functions kept symbolic: ("call", name, args, kwargs) instead of inlining
         self.visited = set()         # functions entered by the evaluation
         self.files = {}              # abstract file system: frozen path -> list of written values
@@ -429,7 +430,9 @@ class Evaluator:
         if opn in ("In", "NotIn"):
             if not isinstance(b, (list, tuple, set, frozenset, dict, str)):
                 raise AnalysisError("membership in a non-constant container")
-            if isinstance(a, (Distinct, Sym, Cat)):
+            if isinstance(a, Distinct):
+                r = any(x is a for x in b)        # the very same token may have been put there; it equals nothing else
+            elif isinstance(a, (Sym, Cat)):
                 r = False
             elif isinstance(a, Opaque):
                 r = self.decide(site)
@@ -455,9 +458,9 @@ class Evaluator:
             return r
         if isinstance(a, (Distinct, Cat)) or isinstance(b, (Distinct, Cat)):
             if opn == "Eq":
-                return a == b if isinstance(a, Cat) and isinstance(b, Cat) else False
+                return a == b if isinstance(a, Cat) and isinstance(b, Cat) else (a is b)
             if opn == "NotEq":
-                return not (a == b) if isinstance(a, Cat) and isinstance(b, Cat) else True
+                return not (a == b) if isinstance(a, Cat) and isinstance(b, Cat) else (a is not b)
             raise AnalysisError("ordering comparison on an abstract string")
         if isinstance(a, Opaque) or isinstance(b, Opaque) or a is UNKNOWN or b is UNKNOWN:
             return self.decide(site)
@@ -531,6 +534,10 @@ class Evaluator:
                 return AbsFile(key, mode)
             if fn.id in ("list", "tuple") and args and isinstance(args[0], (list, tuple)):
                 return list(args[0]) if fn.id == "list" else tuple(args[0])
+            if fn.id in ("set", "list", "dict") and not args and not kws and self.ctx.p.resolve_name(f.module, fn.id) is None:
+                return {"set": set, "list": list, "dict": dict}[fn.id]()
+            if fn.id == "set" and len(args) == 1 and isinstance(args[0], (list, tuple, set)):
+                return set(args[0])
             if fn.id == "str" and args:
                 a = args[0]
                 return str(a) if isinstance(a, (int, float, str)) else Cat([a])
@@ -574,6 +581,11 @@ class Evaluator:
                             acc = self.binop(ast.Add(), acc, sep, e)
                         acc = self.binop(ast.Add(), acc, x, e)
                     return acc
+            if recv_name in env and type(env[recv_name]) is set and fn.attr in ("add", "discard") and len(args) == 1:
+                (env[recv_name].add if fn.attr == "add" else env[recv_name].discard)(args[0])
+                if fn.attr in self.watch:
+                    self.effects.append((fn.attr,) + tuple(freeze(a) for a in args))
+                return None
             if recv_name in env and type(env[recv_name]) is list and fn.attr in ("clear", "copy") and not args:
                 if fn.attr == "clear":
                     del env[recv_name][:]
@@ -608,6 +620,9 @@ class Evaluator:
                     env[recv_name].extend(args[0])
                 return None
         cs = self.ctx.r.site_of.get(id(e))
+        if cs is not None and cs.targets and cs.kind in ("func", "self", "static", "typed") and any(t.name in self.stubs for t in cs.targets):
+            import copy as _copy
+            return _copy.deepcopy(self.stubs[[t.name for t in cs.targets if t.name in self.stubs][0]])
         if cs is not None and cs.targets and cs.kind in ("func", "self", "static", "typed") and any(t.name in self.symbolic for t in cs.targets):
             return ("call", cs.targets[0].name, tuple(freeze(a) for a in args), tuple(sorted((k, freeze(v)) for k, v in kws.items())))
         if cs is not None and cs.targets and cs.kind in ("func", "self", "static", "typed"):
